@@ -222,6 +222,74 @@ def multi_method_checks(chk):
         chk.violation(key, f'init of the lifted class creates {sorted(ds.flatten(iv))}, the plain class {sorted(ds.flatten(variables))}', {})
 
 
+def readonly_scope_rng_checks(chk):
+  """C09: draws made inside a read-only lifted scope (the predicate of nn.while_loop, a read-only nn.map_variables) advance the
+  same per-scope call count as the draws around them: no key is handed out twice."""
+  import flax.linen as nn
+  import jax.numpy as jnp
+
+  def kd(k):
+    return jnp.asarray(jax.random.key_data(k), jnp.uint32).reshape(-1)[:2]
+
+  class Loop(nn.Module):
+    @nn.compact
+    def __call__(self):
+      self.put_variable('st', 'iters', jnp.zeros((), jnp.int32))
+      self.put_variable('st', 'body_key', jnp.zeros((2,), jnp.uint32))
+      self.put_variable('st', 'same', jnp.zeros((), jnp.int32))
+
+      def cond_fn(mdl, c):
+        return mdl.get_variable('st', 'iters') < 2 + 0 * jnp.sum(kd(mdl.make_rng('drop')).astype(jnp.int32))
+
+      def body_fn(mdl, c):
+        k_body = kd(mdl.make_rng('drop'))
+        mdl.put_variable('st', 'same', mdl.get_variable('st', 'same') + jnp.all(k_body == mdl.get_variable('st', 'body_key')).astype(jnp.int32))
+        mdl.put_variable('st', 'body_key', k_body)
+        mdl.put_variable('st', 'iters', mdl.get_variable('st', 'iters') + 1)
+        return c
+      before = kd(self.make_rng('drop'))
+      nn.while_loop(cond_fn, body_fn, self, (), carry_variables='st', split_rngs={'drop': False})
+      return before, kd(self.make_rng('drop'))
+
+  class CondKey(nn.Module):      # the key the predicate draws, observed by drawing at the same position without a loop
+    @nn.compact
+    def __call__(self):
+      before = kd(self.make_rng('drop'))
+      return before, kd(self.make_rng('drop')), kd(self.make_rng('drop')), kd(self.make_rng('drop'))
+  chk.count('C09:while-predicate-draws')
+  try:
+    (before, after), upd = Loop().apply({}, mutable=['st'], rngs={'drop': jax.random.key(3)})
+    body_key = np.asarray(upd['st']['body_key'])
+    plain = [np.asarray(k) for k in CondKey().apply({}, rngs={'drop': jax.random.key(3)})]
+    keys = {'before the loop': np.asarray(before), 'in the body': body_key, 'after the loop': np.asarray(after)}
+    names = list(keys)
+    for i in range(3):
+      for j in range(i + 1, 3):
+        if np.array_equal(keys[names[i]], keys[names[j]]):
+          chk.violation('C09:while-predicate-draws', f'the draws {names[i]} and {names[j]} of nn.while_loop(split_rngs={{drop: False}}) returned the same key', {})
+    # the predicate's own draw is the first one after `before` (call count 2): the body must not receive that key
+    if np.array_equal(body_key, plain[1]):
+      chk.violation('C09:while-predicate-draws', 'the body of nn.while_loop drew the key that its predicate drew (same per-scope call count): '
+                                                 'the predicate\'s draw did not advance the counter', {})
+  except Exception as e:
+    chk.violation('C09:while-predicate-draws', f'raised {type(e).__name__}: {str(e)[:200]}', {})
+
+  class RoMap(nn.Module):
+    @nn.compact
+    def __call__(self):
+      self.param('w', lambda k: jnp.zeros(()))
+      inner = nn.map_variables(lambda m: kd(m.make_rng('drop')), mapped_collections=True, mutable=False)(self)
+      return inner, kd(self.make_rng('drop'))
+  chk.count('C09:readonly-map_variables-draws')
+  try:
+    v = RoMap().init({'params': jax.random.key(0), 'drop': jax.random.key(3)})
+    a, b = RoMap().apply(v, rngs={'drop': jax.random.key(3)})
+    if np.array_equal(np.asarray(a), np.asarray(b)):
+      chk.violation('C09:readonly-map_variables-draws', 'a draw inside a read-only nn.map_variables and the next draw after it returned the same key', {})
+  except Exception as e:
+    chk.violation('C09:readonly-map_variables-draws', f'raised {type(e).__name__}: {str(e)[:200]}', {})
+
+
 def unbind_checks(chk):
   """C02: a bound submodule, unbound, applied on its own subtree computes what it computes inside its parent and needs no further
   initialisation - for setup-declared children and for attribute trees in which one instance is shared (at one or two depths)."""
@@ -314,6 +382,8 @@ def run(chk, prop):
     unbind_checks(chk)
   if prop == 'C05':
     multi_method_checks(chk)
+  if prop == 'C09':
+    readonly_scope_rng_checks(chk)
   chk.cov['setup_behaviours_replayed'] = len(seen)
   if sim['exports']:
     b = sim['exports'][len(sim['exports']) // 2]
